@@ -57,6 +57,10 @@ class MessageHandler(Virtual):
         """We put MBOX-MESSAGE in here so we don't have to re-check
         the first line of the mbox file before returning a true or false
         result."""
+        # Must be a real file
+        if type(self.vfs) is not VFS_Real:
+            return False
+
         if not self.selectorargs:
             return False
 
@@ -127,7 +131,7 @@ class MBoxFolderHandler(FolderHandler):
         """Figure out if this is a handleable request."""
         # Must be a real file
         if (
-            not isinstance(self.vfs, VFS_Real)
+            type(self.vfs) is not VFS_Real
             or self.selectorargs
             or not self.statresult
             or not stat.S_ISREG(self.statresult[stat.ST_MODE])
@@ -172,7 +176,7 @@ class MBoxMessageHandler(MessageHandler):
 
 class MaildirFolderHandler(FolderHandler):
     def canhandlerequest(self):
-        if not isinstance(self.vfs, VFS_Real):
+        if type(self.vfs) is not VFS_Real:
             return 0
         if self.selectorargs:
             return 0
